@@ -120,3 +120,31 @@ def twin_alphabet():
     a.append({'op': 'remove', 'obj': 'T', 'what': 'nacl'})
     return a
 
+
+# ---- requests for almost everything a source holds; trace amounts ---------------------------------------------------------
+def near_whole_sweep():
+    """'@f@unit' = the fraction f of what the (least filled) source well holds, in that unit (resolved by e1.concretise)."""
+    a = []
+    for s, d in (('A', 'E'), ('B', 'E'), ('G', 'E'), (['P', "(2, 3)"], 'E'), (['P', "(1, 1)"], ['Q', "(1, 1)"]),
+                 (['P', "(2, slice(None))"], ['Q', "(1, 1)"]), ('B', ['Q', "(1, slice(None))"])):
+        for unit in ('L', 'g', 'mol', 'U'):
+            for f in ('0.9999', '0.999995', '0.99999999', '0.499999'):
+                a.append(T(s, d, f"@{f if d != ['Q', '(1, slice(None))'] else str(float(f) / 2)}@{unit}"))
+    return a
+
+
+W_TRACE = {
+    # a trace solute of a few femtomoles (tens of storage resolutions) next to ordinary amounts
+    'A': ('container', 'inf L', [('water', '1 mL'), ('dmso', '0.5 mL'), ('nacl', '8e-15 mol'), ('lipase', '3e-8 U')]),
+    'E': ('container', '20 mL', []),
+    'R': ('plate', '500 uL', 1, 2),
+}
+
+
+def trace_alphabet():
+    a = []
+    for s, d in (('A', 'E'), ('E', 'A'), ('A', 'R'), (['R', "(1, 1)"], 'E'), (['R', "(1, 1)"], ['R', "(1, 2)"])):
+        for q in ('0.3 mL', '0.2 g', '20 uL', '3 mmol'):
+            a.append(T(s, d, q))
+    return a
+
